@@ -236,7 +236,7 @@ theorem step_rel (st st' : State) (s : Stmt) (c : Option Nat) (im : Img)
             rw [length_placeholder] at r1
             exact r1.congr rfl rfl
   | align n =>
-    unfold step at h
+    rw [step_align] at h
     cases hact : st.active with
     | none => rw [hact] at h; cases h
     | some s =>
